@@ -227,12 +227,17 @@ func cmdVerify(eng *Engine, name string, dump bool, timeoutMs int, verbose bool)
 			fmt.Println("   ERROR:", fr.Err)
 			rc = 1
 		}
+		nfail := 0
 		for _, o := range fr.Obls {
 			ok := o.ok()
 			mark := "ok  "
 			if !ok {
 				mark = "FAIL"
 				rc = 1
+				nfail++
+				if nfail > 12 && !verbose {
+					continue
+				}
 			}
 			if verbose || !ok {
 				fmt.Printf("   %s %-8s %-7s %s   [%s] %s\n", mark, o.Status, o.Solver, o.Name, o.Pos, o.Src)
